@@ -68,6 +68,9 @@ class RandomChooser(object):
             self.line_q = cfg.get("line_q", 1.0)
         self.cur_why = None
         self.cur_obj = None
+        # yield points inside scripted user code (callables, map / poll / cancel functions, policies,
+        # done-callbacks) are where the library is re-entered or raced by design: extra chance of a switch
+        self.user_q = cfg.get("user_q", 0.0)
         if self.strategy == "rd":
             # race-directed: a thread about to acquire a lock may be held back until another
             # thread arrives at the same lock (then a coin decides who goes first) - places two
@@ -93,6 +96,11 @@ class RandomChooser(object):
     def pick(self, step, cands, cur, default):
         s = self.strategy
         rng = self.rng
+        if self.user_q and cur is not None and cur.status == RUNNABLE and isinstance(self.cur_why, str) \
+                and self.cur_why.startswith("user") and rng.random() < self.user_q:
+            others = [t for t in cands if t is not cur]
+            if others:
+                return others[rng.randrange(len(others))]
         if s == "uniform":
             return cands[rng.randrange(len(cands))]
         if s == "sticky":
@@ -651,6 +659,7 @@ class Sim(object):
                 if self.on_jump is not None:
                     self.on_jump(self, old, d, woken)
         if len(cands) > 1:
+            self.chooser.cur_why = "block"
             nxt = self._choose(cands, "block")
         else:
             nxt = cands[0]
